@@ -98,6 +98,24 @@ func TestVerifBattery(t *testing.T) {
 				bad("%s leaves a non-canonical stored value %x", what, vValOf(e.E))
 			}
 		}
+		// results that are byte slices belong to the caller: holding several of them, and writing to one, changes none of the others
+		{
+			held := make([][]byte, 0, len(vals))
+			for _, a := range vals {
+				held = append(held, vElemOf(a).Bytes())
+			}
+			for i, a := range vals {
+				want := make([]byte, 32)
+				new(big.Int).Mod(a, vM).FillBytes(want)
+				if !bytes.Equal(held[i], want) {
+					bad("Bytes(%x) changed after later Bytes() calls: %x", a, held[i])
+					break
+				}
+				for j := range held[i] {
+					held[i][j] ^= 0xff
+				}
+			}
+		}
 		for _, a := range vals {
 			ea := vElemOf(a)
 			if vValue(ea).Cmp(new(big.Int).Mod(a, vM)) != 0 {
